@@ -33,6 +33,9 @@ use sozu_command_lib::{
 
 use crate::{tn, ts, Case, Op, Out, Tok};
 
+#[path = "cfgstate_oracle.rs"]
+pub mod oracle;
+
 pub const POISON: i128 = 999_999;
 
 #[derive(Clone, Copy, PartialEq, Eq)]
@@ -1395,27 +1398,18 @@ pub fn run(cx: &Ctx, case: &Case, out: &mut Out, mode: Mode) {
                     if mode == Mode::C07 {
                         match &r {
                             Err(e) => {
-                                if !cfg_eq(&before, &s) {
-                                    let (eb, ea) = (entries(cx, &before), entries(cx, &s));
-                                    out.viol(
-                                        &format!("err-mutated-{}", op.name),
-                                        &format!("{} answered {} but the configuration changed: {}", req.short_name(), err_name(e), entry_diff(&eb, &ea)),
-                                    );
+                                // independent of the model and of the op encoding: real request, real states
+                                let lines = oracle::check_rejected(&req, &before, &s);
+                                for l in &lines {
+                                    out.viol(&format!("err-mutated-{}", op.name), &format!("{} ({})", l, err_name(e)));
+                                }
+                                if lines.is_empty() && !cfg_eq(&before, &s) {
+                                    out.viol(&format!("err-mutated-{}", op.name), &format!("{} answered {} but the configuration changed", req.short_name(), err_name(e)));
                                 }
                             }
                             Ok(()) => {
-                                let (eb, ea) = (entries(cx, &before), entries(cx, &s));
-                                let named = named_keys(op);
-                                let bm: BTreeMap<&Vec<i128>, &Entry> = eb.iter().map(|e| (&e.key, e)).collect();
-                                let am: BTreeMap<&Vec<i128>, &Entry> = ea.iter().map(|e| (&e.key, e)).collect();
-                                let keys: BTreeSet<&Vec<i128>> = bm.keys().chain(am.keys()).cloned().collect();
-                                for k in keys {
-                                    if bm.get(k) != am.get(k) && !named.contains(k) {
-                                        out.viol(
-                                            &format!("ok-frame-{}", op.name),
-                                            &format!("accepted {} changed an object it does not name: key {:?}", req.short_name(), k),
-                                        );
-                                    }
+                                for (kind, text) in oracle::check_accepted(&req, &before, &s) {
+                                    out.viol(&format!("ok-{kind}-{}", op.name), &text);
                                 }
                             }
                         }
